@@ -546,10 +546,17 @@ func runC18(rc *fw.RunCtx) {
 				rc.Sample = map[string]any{"piece": p.Effective, "a0": r.String()}
 				return
 			}
-			panic(fmt.Sprintf("harness: effective part of fault piece does not compile: %q: %s", p.Effective, r))
+			// the effective part of a fault piece is generated to compile on its
+			// own: if it does not, this tree (or the generator) is broken in a way
+			// this run cannot judge
+			rc.Inconclusive = "precondition_reference_session_failed"
+			rc.Sample = map[string]any{"piece": p.Effective, "a0": r.String()}
+			return
 		}
 		if r.Stage != "" {
-			panic(fmt.Sprintf("harness: fault-free piece failed at run time: %q: %s", p.Effective, r))
+			rc.Inconclusive = "precondition_reference_session_failed"
+			rc.Sample = map[string]any{"piece": p.Effective, "a0": r.String()}
+			return
 		}
 		effective = append(effective, p.Effective)
 		a0recs[i] = a0rec{res: r, globals: a0.globals(skip), logLen: len(hA0.Events())}
